@@ -64,10 +64,10 @@ def rule_grp(A: Analysis, rep):
     ends = [n for n in r if any(m is hdr and is_back(lb) for m, lb in n.succ)]
     rep.check(in_loop and not ends and not any(isinstance(x, (ast.Break, ast.Continue)) for x in walk_local(lp)), "GRP1", "one run_experiment per instance", call,
               "every instance yields one run_experiment call", "an iteration can end without defining its experiment")
-    kws = {k.arg: k.value for k in call.keywords}
+    kws = A.kwmap(call)
     want = {"name": "%s.name" % e, "run": run, "parallelizable": "%s.parallelizable" % e, "args": "%s.args" % e, "options": "%s.options" % e}
     got = {k: norm(v) for k, v in kws.items() if k != "deps"}
-    rep.check(got == want and not call.args, "GRP1", "keyword origins", call, "name/run/parallelizable/args/options come from the instance and the group",
+    rep.check(got == want and len(got) + ("deps" in kws) == len(call.args) + len(call.keywords), "GRP1", "keyword origins", call, "name/run/parallelizable/args/options come from the instance and the group",
               "run_experiment(%s) — expected %s" % (", ".join("%s=%s" % kv for kv in sorted(got.items())), ", ".join("%s=%s" % kv for kv in sorted(want.items()))))
     from .conddefs import raw_types
     schema = raw_types(A)["run_experiment"][0]
@@ -134,7 +134,7 @@ def rule_grp(A: Analysis, rep):
     ok = len(combs) == 1
     if ok:
         c = combs[0]
-        ck = {k.arg: norm(k.value) for k in c.keywords}
+        ck = {k: norm(v) for k, v in A.kwmap(c).items()}
         st = _stmt_of(c)
         lst = ck.get("deps")
         apps = [n for n in g.nodes if n.kind == "stmt" and norm(n.ast).startswith("%s.append(" % lst) and id(n.ast) in {id(x) for x in ast.walk(lp)}]
@@ -162,6 +162,15 @@ def rule_grp(A: Analysis, rep):
             marks = [n for n in g.nodes if n.kind == "stmt" and norm(n.ast) == "%s.add(%s.name)" % (st_, e)]
             ok = bool(marks) and g.all_paths_pass(be, cn, marks, skip_labels=is_exc) and \
                 all(g.reachable(r_, cn, skip_labels=skip) is False for r_ in raises.values())
+            # the names remembered are those of this call only: a fresh empty set made before the loop (a set that
+            # outlives the call would reject a name used by another group, another COND file, or a re-evaluation)
+            sv = A.single_def_value(fi, st_)
+            sdefs = [n for n in g.nodes if n.kind == "stmt" and isinstance(n.ast, (ast.Assign, ast.AnnAssign))
+                     and norm(n.ast.targets[0] if isinstance(n.ast, ast.Assign) else n.ast.target) == st_]
+            fresh = sv is not None and norm(sv) in ("set()", "set([])", "set(())") and len(sdefs) == 1 and st_ not in fi.params and \
+                g.all_paths_pass(g.entry, be, sdefs, skip_labels=is_exc) and id(sdefs[0].ast) not in {id(x) for x in ast.walk(lp)}
+            rep.check(fresh, "GRP4", "duplicate names are judged within one group only", lp, "the seen-names set is created empty by each call",
+                      "`%s` is not a set created empty inside this call before the loop: names seen by earlier calls would be rejected" % st_)
             # both tests precede the call
             tests = [n for n in g.nodes if n.kind == "test" and id(n.ast) in {id(x) for x in ast.walk(lp)} and ("isinstance(%s" % e in norm(n.ast) or "in %s" % st_ in norm(n.ast))]
             ok = ok and len(tests) >= 2 and all(g.all_paths_pass(be, cn, [t_], skip_labels=is_exc) for t_ in tests)
